@@ -63,14 +63,14 @@ def write_cfg(path, spec, constants, invariants, subst=None, properties=None, co
 
 
 def run_mc(name, module, constants, invariants, subst=None, workers=8, timeout=3000,
-           properties=None, constraint=None, allow_violation=False):
+           properties=None, constraint=None, allow_violation=False, spec="Spec"):
     """Flow A: model-checks `module` and returns
     {states, distinct, cases:[...], seconds, violated: invariant-or-None, out}."""
     d = os.path.join(WORK, "mc_" + name)
     shutil.rmtree(d, ignore_errors=True)
     os.makedirs(d, exist_ok=True)
     cfg = os.path.join(d, module + ".cfg")
-    write_cfg(cfg, "Spec", constants, invariants, subst, properties, constraint)
+    write_cfg(cfg, spec, constants, invariants, subst, properties, constraint)
     # TLC wants the cfg next to the module or given by path; modules are read from SPEC
     t0 = time.time()
     r = sh(["timeout", str(timeout), "tlc", "-workers", str(workers), "-config", cfg,
@@ -127,17 +127,11 @@ def run_harness(name, cases, procs=8):
     shutil.rmtree(d, ignore_errors=True)
     os.makedirs(d, exist_ok=True)
     n = max(1, min(procs, (len(cases) + 199) // 200))
-    # contiguous blocks (the cases of a group stay adjacent and in order)
-    per = (len(cases) + n - 1) // n
-    chunks, cur = [], []
-    for i, c in enumerate(cases):
-        cur.append(c)
-        nxt = cases[i + 1].get("group") if i + 1 < len(cases) else None
-        if len(cur) >= per and not (c.get("group") is not None and c.get("group") == nxt):
-            chunks.append(cur)
-            cur = []
-    if cur:
-        chunks.append(cur)
+    # round robin: balanced, and the cases of one group (consecutive cases) are executed by
+    # DIFFERENT processes (different hash seeds); the observations are put back into case
+    # order afterwards, so group members are adjacent again for the judge.
+    chunks = [cases[i::n] for i in range(n)]
+    chunks = [c for c in chunks if c]
     n = len(chunks)
 
     def one(i):
@@ -151,9 +145,13 @@ def run_harness(name, cases, procs=8):
 
     with ThreadPoolExecutor(max_workers=n) as ex:
         parts = list(ex.map(one, range(n)))
-    obs = []
+    by_case = {}
     for p in parts:
-        obs.extend(p)
+        for g in split_by_case(p):
+            by_case[g[0]["case"]] = g
+    obs = []
+    for c in cases:
+        obs.extend(by_case[c["id"]])
     return obs
 
 
